@@ -17,6 +17,7 @@ import (
 	"diagonal.works/b6"
 	"diagonal.works/b6/ingest"
 	"diagonal.works/b6/ingest/compact"
+	"github.com/golang/geo/s2"
 	"verif/harness/obs"
 	"verif/harness/vh"
 )
@@ -267,7 +268,7 @@ func runStatic(data json.RawMessage) vh.Verdict {
 		case "concurrent-compact":
 			compactFamily = true
 			var data []byte
-			data, err = buildCompact(features(c.Src, true, nil), cores, nil)
+			data, err = buildCompact(features(withHotFeatures(c.Src), true, nil), cores, nil)
 			if err == nil {
 				w, err = compact.NewWorldFromData(data)
 				// a world object over the same index whose lazily filled caches are still empty
@@ -358,6 +359,50 @@ func runStatic(data json.RawMessage) vh.Verdict {
 				wg.Wait()
 			}
 		})
+		if finished && fresh != nil && c.Impl == "concurrent-compact" {
+			// the features whose lazily built parts take long to fill (a relation of 400 members, a path of 400
+			// points): many goroutines ask for them at the same moment on a world nobody has read yet, many times
+			var want string
+			if p := vh.Catch(func() { want = hotRead(w) }); p != "" {
+				cm.add(-1, "concurrent", "hot:panic-alone", p)
+			} else {
+				var mu sync.Mutex
+				bad := ""
+				okAll := obs.WithDeadline(60*time.Second, func() {
+					for round := 0; round < 6 && bad == ""; round++ {
+						cw, ferr := fresh()
+						if ferr != nil {
+							break
+						}
+						start := make(chan struct{})
+						var hw sync.WaitGroup
+						for g := 0; g < 8; g++ {
+							hw.Add(1)
+							go func() {
+								defer hw.Done()
+								<-start
+								var got string
+								p := vh.Catch(func() { got = hotRead(cw) })
+								mu.Lock()
+								if p != "" && bad == "" {
+									bad = "panic: " + p
+								} else if got != want && bad == "" {
+									bad = "read " + trimTo(got, 300) + " instead of " + trimTo(want, 300)
+								}
+								mu.Unlock()
+							}()
+						}
+						close(start)
+						hw.Wait()
+					}
+				})
+				if !okAll {
+					cm.add(-1, "concurrent", "hot:hang", "concurrent first reads of a large relation and a long path did not finish within 60 s")
+				} else if bad != "" {
+					cm.add(-1, "concurrent", "hot:differs", "8 goroutines reading a 400-member relation and a 400-point path of a world nobody had read yet: "+bad)
+				}
+			}
+		}
 		if !finished {
 			cm.add(-1, "concurrent", "hang", "concurrent observation did not finish within 60 s")
 		} else {
@@ -772,4 +817,55 @@ func runBulk(c *staticCase, cores int) vh.Verdict {
 		return *verdict
 	}
 	return vh.Verdict{OK: true, Stats: stats}
+}
+
+// withHotFeatures adds a relation of 400 members (R99) and a path of 400 literal points (W99) to a source.
+func withHotFeatures(src obs.AWorld) obs.AWorld {
+	out := obs.AWorld{}
+	for n, f := range src {
+		out[n] = f
+	}
+	noTags := map[string]string{}
+	var members, pts []string
+	for i := 0; i < 400; i++ {
+		members = append(members, []string{"P0", "P1", "P2", "P3", "W1"}[i%5])
+		pts = append(pts, "L"+strconv.Itoa((i*5)%12))
+	}
+	out["R99"] = obs.AFeature{Kind: "rel", V: -1, Members: members, Tags: noTags}
+	out["W99"] = obs.AFeature{Kind: "path", V: -1, Pts: pts, Tags: noTags}
+	return out
+}
+
+// hotRead reads every member of R99 and every point of W99.
+func hotRead(w b6.World) string {
+	var b strings.Builder
+	if f := w.FindFeatureByID(obs.ID("R99")); f != nil {
+		if r, ok := f.(b6.RelationFeature); ok {
+			for i := 0; i < r.Len(); i++ {
+				b.WriteString(obs.Name(r.Member(i).ID))
+				b.WriteByte(' ')
+			}
+		}
+	} else {
+		b.WriteString("R99 missing ")
+	}
+	b.WriteByte('|')
+	if f := w.FindFeatureByID(obs.ID("W99")); f != nil {
+		if p, ok := f.(b6.PhysicalFeature); ok {
+			for _, pt := range *p.Polyline() {
+				b.WriteString(strconv.Itoa(obs.VertexOf(s2.LatLngFromPoint(pt))))
+				b.WriteByte(' ')
+			}
+		}
+	} else {
+		b.WriteString("W99 missing")
+	}
+	return b.String()
+}
+
+func trimTo(s string, n int) string {
+	if len(s) > n {
+		return s[:n] + "..."
+	}
+	return s
 }
